@@ -1,9 +1,312 @@
+import RsMatterVerif.Model.Codec.Buf
+import RsMatterVerif.Model.Codec.Base38
+import RsMatterVerif.Model.Codec.ManualCode
+import RsMatterVerif.Model.Codec.PlainHdr
+import RsMatterVerif.Model.Codec.ProtoHdr
+import RsMatterVerif.Model.Codec.StatusReport
+import Driver.C17More
 import Driver.Util
-/-! Driver for C17: not built yet. -/
+/-!
+Driver for C17. One case = one codec (`case <id> <codec>`); every op line is self-contained:
+`rt <fields>` (encode then decode with the real code) or `dec <hex>` (real decoder on a string).
+For every line the driver
+* recomputes the answer with the Lean model (`DIS` on a difference), and
+* evaluates the property's specification on the implementation's answer (`ORA`): a round trip
+  returns the fields that were encoded, a decoder never panics, and strings the specification
+  calls invalid (wrong check digit, out-of-range field, invalid base-38 character / length class)
+  are refused. The oracle functions below are written from the property text / the Matter
+  specification and do not call the model decoders (except Verhoeff's check-digit definition).
+-/
 namespace Driver.C17
+open Codec Driver.C17U
 
-def run : IO UInt32 := do
-  IO.eprintln "C17: driver not built yet"
-  return 2
+/-! ### base38 -/
+
+def b38SpecMustReject (s : List Nat) : Bool :=
+  s.any (fun c => !(Base38.alphabet.contains c)) || s.length % 5 == 1 || s.length % 5 == 3
+
+def b38Dec (s : List Nat) : String :=
+  match Base38.decode s with
+  | (bs, none) => s!"ok {hex bs}"
+  | (bs, some e) => s!"err {e.name} {hex bs}"
+
+def stepBase38 (op : List String) (out : String) : String :=
+  match op with
+  | ["rt", h] =>
+    match unhex h with
+    | none => "BAD hex"
+    | some bs =>
+      let model := match Base38.encode bs with
+        | .ok cs => s!"{hex cs} {b38Dec cs}"
+        | .error e => exErr e
+      let ora : Option String := match words out with
+        | [_, "ok", d] => if d = h then none else some s!"round trip returned {d} for {h}"
+        | _ => some s!"round trip of {h} did not succeed: {out}"
+      verdict model out ora
+  | ["dec", h] =>
+    match unhex h with
+    | none => "BAD hex"
+    | some s =>
+      let model := b38Dec s
+      let ora : Option String :=
+        if isPanic out then some "decoder panicked"
+        else if b38SpecMustReject s && !(out.startsWith "err ") then some "invalid base-38 string accepted"
+        else none
+      verdict model out ora
+  | _ => "BAD op"
+
+/-! ### manual pairing code -/
+
+def manualShow (r : Except Err ManualCode.Manual) : String :=
+  match r with
+  | .ok m => s!"ok {m.short} {m.pass} {m.vid} {m.pid} {if m.long then 1 else 0}"
+  | .error e => exErr e
+
+/-- Specification of a valid v1 manual pairing code (Matter Core spec 5.1.4.1), on code points. -/
+def manualSpecValid (code : List Nat) : Bool :=
+  let ds := code.filter (fun c => c != 45 && c != 32)
+  let val := fun (off len : Nat) => ((ds.drop off).take len).foldl (fun a c => 10 * a + (c - 48)) 0
+  ds.all Verhoeff.isDigit && (ds.length == 11 || ds.length == 21) && Verhoeff.validate ds &&
+  val 0 1 ≤ 7 && ((val 0 1 ≥ 4) == (ds.length == 21)) && val 1 5 ≤ 65535 && val 6 4 ≤ 8191 &&
+  (ds.length == 11 || (val 10 5 ≤ 65535 && val 15 5 ≤ 65535))
+
+def stepManual (op : List String) (out : String) : String :=
+  match op with
+  | ["rt", d, p] =>
+    match d.toNat?, p.toNat? with
+    | some disc, some pw =>
+      let model := match ManualCode.encode disc pw with
+        | .ok cs => s!"{hex cs} {manualShow (ManualCode.parse cs)}"
+        | .error e => exErr e
+      let ora : Option String :=
+        if disc < 4096 ∧ pw < 134217728 then
+          match words out with
+          | [c, "ok", s, q, v, w, l] =>
+            if c.length ≠ 22 then some "code is not 11 characters"
+            else if s = toString (disc / 256) ∧ q = toString pw ∧ v = "0" ∧ w = "0" ∧ l = "0" then none
+            else some s!"round trip returned short={s} pass={q} vid={v} pid={w} long={l}"
+          | _ => some s!"round trip of a legal (discriminator, passcode) did not succeed: {out}"
+        else none
+      verdict model out ora
+    | _, _ => "BAD nums"
+  | ["dec", h] =>
+    match unhexStr h with
+    | none => "BAD utf8"
+    | some cps =>
+      let model := manualShow (ManualCode.parse cps)
+      let ora : Option String :=
+        if isPanic out then some "decoder panicked"
+        else if !(manualSpecValid cps) && !(out.startsWith "err ") then
+          some "code with a wrong check digit / out-of-range field accepted"
+        else none
+      verdict model out ora
+  | _ => "BAD op"
+
+/-! ### plain header -/
+
+def plainShow (r : Except Err (PlainHdr.Hdr × List Nat)) : String :=
+  match r with
+  | .ok (h, rest) =>
+    let v := PlainHdr.view h
+    s!"ok {v.flags} {v.sessId} {v.secFlags} {v.ctr} {optS v.src} {optS v.dstU} {optS v.dstG} {hex rest}"
+  | .error e => exErr e
+
+/-- specification view of a header given by its raw fields (written from the Matter message format) -/
+def plainSpecView (f sid sf ctr src dst : Nat) (rest : String) : String :=
+  let s := if f / 4 % 2 = 1 then toString src else "-"
+  let u := if f % 4 = 1 then toString dst else "-"
+  let g := if f % 4 = 2 then toString (dst % 65536) else "-"
+  s!"ok {f} {sid} {sf} {ctr} {s} {u} {g} {rest}"
+
+def plainEnc (h : PlainHdr.Hdr) (cap : Nat) (extra : List Nat) : String :=
+  let bytes := PlainHdr.encodeBytes h
+  if bytes.length > cap then "err NoSpace"
+  else s!"{hex bytes} {plainShow (PlainHdr.decode {} (bytes ++ extra))}"
+
+def stepPlain (op : List String) (out : String) : String :=
+  match op with
+  | "rt" :: f :: sid :: sf :: ctr :: src :: dst :: ex :: capw =>
+    match nats [f, sid, sf, ctr, src, dst], unhex ex with
+    | some [f, sid, sf, ctr, src, dst], some extra =>
+      let cap := match capw with | [c] => c.toNat?.getD 64 | _ => 64
+      let h : PlainHdr.Hdr := { flags := f, sessId := sid, secFlags := sf, ctr := ctr, src := src, dst := dst }
+      let model := plainEnc h cap extra
+      let ora : Option String :=
+        if isPanic out then some "panic"
+        else if cap < 26 then none
+        else
+          let want := plainSpecView f sid sf ctr src dst ex
+          match splitFirst out with
+          | (_, got) => if got = want then none else some s!"round trip: want [{want}] got [{got}]"
+      verdict model out ora
+    | _, _ => "BAD args"
+  | ["set", src, kind, dst] =>
+    match dst.toNat? with
+    | none => "BAD dst"
+    | some d =>
+      let h0 : PlainHdr.Hdr := {}
+      let h1 := PlainHdr.setDstU (PlainHdr.setSrc h0 (some 0xdeadbeef)) (some 0x123456789abc)
+      let h2 := PlainHdr.setSrc h1 src.toNat?
+      let h3 := if kind = "u" then PlainHdr.setDstU h2 (some d)
+        else if kind = "g" then PlainHdr.setDstG h2 (some (d % 65536))
+        else PlainHdr.setDstU h2 none
+      let model := s!"{h3.flags} {h3.sessId} {h3.secFlags} {h3.ctr} {h3.src} {h3.dst} {plainEnc h3 64 []}"
+      -- oracle: what was set is what is decoded
+      let wantSrc := match src.toNat? with | some s => toString s | none => "-"
+      let wantU := if kind = "u" then toString d else "-"
+      let wantG := if kind = "g" then toString (d % 65536) else "-"
+      let ora : Option String := match words out with
+        | [_, _, _, _, _, _, _, "ok", _, _, _, _, s, u, g, _] =>
+          if s = wantSrc ∧ u = wantU ∧ g = wantG then none else some s!"setters round trip: src={s} dstu={u} dstg={g}"
+        | _ => some s!"setters round trip failed: {out}"
+      verdict model out ora
+  | ["dec", h] =>
+    match unhex h with
+    | none => "BAD hex"
+    | some bs =>
+      verdict (plainShow (PlainHdr.decode {} bs)) out (if isPanic out then some "decoder panicked" else none)
+  | _ => "BAD op"
+
+/-! ### proto header -/
+
+def protoShow (r : Except Err (ProtoHdr.Hdr × List Nat)) : String :=
+  match r with
+  | .ok (h, rest) =>
+    let v := ProtoHdr.view h
+    s!"ok {v.exchId} {v.flags} {v.protoId} {v.opcode} {optS v.vendor} {optS v.ack} {hex rest}"
+  | .error e => exErr e
+
+def stepProto (op : List String) (out : String) : String :=
+  match op with
+  | "rt" :: eid :: f :: pid :: opc :: ven :: ack :: ex :: capw =>
+    match nats [eid, f, pid, opc, ven, ack], unhex ex with
+    | some [eid, f, pid, opc, ven, ack], some extra =>
+      let cap := match capw with | [c] => c.toNat?.getD 64 | _ => 64
+      let h : ProtoHdr.Hdr := { exchId := eid, flags := f, protoId := pid, opcode := opc, vendorId := ven, ackCtr := ack }
+      let bytes := ProtoHdr.encodeBytes h
+      let model := if bytes.length > cap then "err NoSpace"
+        else s!"{hex bytes} {protoShow (ProtoHdr.decode {} (bytes ++ extra))}"
+      let ora : Option String :=
+        if isPanic out then some "panic"
+        else if cap < 12 then none
+        else
+          let v := if f / 16 % 2 = 1 then toString ven else "-"
+          let a := if f / 2 % 2 = 1 then toString ack else "-"
+          let want := s!"ok {eid} {f} {pid} {opc} {v} {a} {ex}"
+          let got := (splitFirst out).2
+          if got = want then none else some s!"round trip: want [{want}] got [{got}]"
+      verdict model out ora
+    | _, _ => "BAD args"
+  | ["dec", h] =>
+    match unhex h with
+    | none => "BAD hex"
+    | some bs =>
+      verdict (protoShow (ProtoHdr.decode {} bs)) out (if isPanic out then some "decoder panicked" else none)
+  | _ => "BAD op"
+
+/-! ### status report -/
+
+def statusShow (r : Except Err StatusReport.Report) : String :=
+  match r with
+  | .ok r => s!"ok {r.general} {r.protoId} {r.protoCode} {hex r.data}"
+  | .error e => exErr e
+
+def stepStatus (op : List String) (out : String) : String :=
+  match op with
+  | "rt" :: g :: pid :: code :: d :: capw =>
+    match nats [g, pid, code], unhex d with
+    | some [g, pid, code], some data =>
+      let cap := match capw with | [c] => c.toNat?.getD (data.length + 16) | _ => data.length + 16
+      let r : StatusReport.Report := { general := g, protoId := pid, protoCode := code, data := data }
+      let bytes := StatusReport.writeBytes r
+      let model := if bytes.length > cap then "err NoSpace" else s!"{hex bytes} {statusShow (StatusReport.read bytes)}"
+      let ora : Option String :=
+        if isPanic out then some "panic"
+        else if cap < data.length + 8 then none
+        else
+          let want := s!"ok {g} {pid} {code} {d}"
+          let got := (splitFirst out).2
+          if got = want then none else some s!"round trip: want [{want}] got [{got}]"
+      verdict model out ora
+    | _, _ => "BAD args"
+  | ["dec", h] =>
+    match unhex h with
+    | none => "BAD hex"
+    | some bs =>
+      verdict (statusShow (StatusReport.read bs)) out (if isPanic out then some "decoder panicked" else none)
+  | _ => "BAD op"
+
+/-! ### ParseBuf / WriteBuf (level-0 model, stateful inside a case) -/
+
+structure St where
+  kind : String := ""
+  rb : RBuf := RBuf.new []
+  wb : WBuf := WBuf.new 0
+
+def showNat (r : Except Err (Nat × RBuf)) (st : St) : St × String :=
+  match r with
+  | .ok (x, b) => ({ st with rb := b }, s!"ok {x}")
+  | .error e => (st, exErr e)
+
+def stepRbuf (st : St) (op : List String) (out : String) : St × String :=
+  let fin := fun (p : St × String) => (p.1, verdict p.2 out (if isPanic out then some "ParseBuf panicked" else none))
+  match op with
+  | ["new", h] =>
+    match unhex h with
+    | none => (st, "BAD hex")
+    | some bs => fin ({ st with rb := RBuf.new bs }, "ok")
+  | ["u8"] => fin (showNat st.rb.leU8 st)
+  | ["u16"] => fin (showNat st.rb.leU16 st)
+  | ["u32"] => fin (showNat st.rb.leU32 st)
+  | ["u64"] => fin (showNat st.rb.leU64 st)
+  | ["tail", n] =>
+    match st.rb.tail (n.toNat?.getD 0) with
+    | .ok (t, b) => fin ({ st with rb := b }, s!"ok {hex t}")
+    | .error e => fin (st, exErr e)
+  | ["slice"] =>
+    match st.rb.asSlice with
+    | .ok s => fin (st, s!"ok {hex s}")
+    | .error e => fin (st, exErr e)
+  | _ => (st, "BAD op")
+
+def stepWbuf (st : St) (op : List String) (out : String) : St × String :=
+  let fin := fun (r : Except Err WBuf) =>
+    match r with
+    | .ok w => ({ st with wb := w }, verdict "ok" out none)
+    | .error e => (st, verdict (exErr e) out none)
+  match op with
+  | ["new", n] => ({ st with wb := WBuf.new (min (n.toNat?.getD 0) 4096) }, verdict "ok" out none)
+  | ["reserve", k] => fin (st.wb.reserve (k.toNat?.getD 0))
+  | ["u8", x] => fin (st.wb.leU8 (x.toNat?.getD 0))
+  | ["u16", x] => fin (st.wb.leU16 (x.toNat?.getD 0))
+  | ["u32", x] => fin (st.wb.leU32 (x.toNat?.getD 0))
+  | ["u64", x] => fin (st.wb.leU64 (x.toNat?.getD 0))
+  | ["append", h] => fin (st.wb.append ((unhex h).getD []))
+  | ["prepend", h] => fin (st.wb.prepend ((unhex h).getD []))
+  | ["slice"] =>
+    match st.wb.asSlice with
+    | .ok s => (st, verdict s!"ok {hex s}" out none)
+    | .error e => (st, verdict (exErr e) out none)
+  | _ => (st, "BAD op")
+
+def step (st : St) (line : String) : St × String :=
+  let (op, out) := Driver.splitArrow line
+  match Driver.words op with
+  | "case" :: _ :: k :: _ => ({ kind := k }, "case")
+  | ws =>
+    match st.kind with
+    | "base38" => (st, stepBase38 ws out)
+    | "manual" => (st, stepManual ws out)
+    | "plainhdr" => (st, stepPlain ws out)
+    | "protohdr" => (st, stepProto ws out)
+    | "status" => (st, stepStatus ws out)
+    | "rbuf" => stepRbuf st ws out
+    | "wbuf" => stepWbuf st ws out
+    | k =>
+      match Driver.C17More.step k ws out with
+      | some r => (st, r)
+      | none => (st, "BAD kind")
+
+def run : IO UInt32 := Driver.runLoop ({} : St) step
 
 end Driver.C17
